@@ -20,6 +20,8 @@ use crate::rng::{Fnv, Rng};
 
 pub const START_NS: u64 = 1_000_000_000_000;
 pub const EVENT_ENTITY: u64 = u64::MAX;
+/// See `State::pick_entity`.
+pub const FAIR_BOUND: u64 = 256;
 
 /// How the schedule is chosen when decisions are seeded.
 #[derive(Clone, Debug, Serialize, Deserialize, PartialEq)]
@@ -66,7 +68,7 @@ impl SchedCfg {
             Some(Stall {
                 victim: rng.pick(victims).to_string(),
                 from_step: rng.range(0, 150),
-                steps: rng.range(5, 200),
+                steps: rng.range(5, 150),
             })
         } else {
             None
@@ -144,6 +146,8 @@ struct State {
     seq: u64,
     next_id: u64,
     runnable: BTreeMap<u64, Runnable>,
+    /// step at which each runnable entity became runnable (fairness bound)
+    since: BTreeMap<u64, u64>,
     names: BTreeMap<u64, String>,
     events: BinaryHeap<Event>,
     threads: BTreeMap<u64, ThreadSlot>,
@@ -252,6 +256,7 @@ impl World {
                 seq: 0,
                 next_id: 1,
                 runnable: BTreeMap::new(),
+                since: BTreeMap::new(),
                 names: BTreeMap::new(),
                 events: BinaryHeap::new(),
                 threads: BTreeMap::new(),
@@ -421,6 +426,7 @@ impl World {
                     if id == EVENT_ENTITY {
                         Pick::Event(st.events.pop().unwrap())
                     } else if let Some(r) = st.runnable.remove(&id) {
+                        st.since.remove(&id);
                         let step = st.steps;
                         let now = st.now;
                         st.hash.write_u64(id);
@@ -591,6 +597,21 @@ impl State {
         if ents.len() == 1 {
             return 0;
         }
+        // Fairness bound: a task that has been runnable for FAIR_BOUND steps runs now, whatever the
+        // strategy or the recorded decisions say (no decision is drawn or consumed, so replay stays
+        // exact).  Without it, priority schedules starve the one task a retry loop in a dependency
+        // (async-lock's reader hand-off) is waiting for, which would look like a hang.
+        let now = self.steps;
+        if let Some((i, _)) = ents
+            .iter()
+            .enumerate()
+            .filter_map(|(i, id)| self.since.get(id).map(|s| (i, now.saturating_sub(*s))))
+            .filter(|(_, age)| *age >= FAIR_BOUND)
+            .max_by_key(|(i, age)| (*age, usize::MAX - *i))
+        {
+            *self.counters.entry("sched.fairness_forced_pick").or_insert(0) += 1;
+            return i;
+        }
         if self.rng.is_none() {
             let v = self.explicit.get(self.explicit_pos).copied().unwrap_or(0) as usize % ents.len();
             self.explicit_pos += 1;
@@ -656,6 +677,8 @@ impl zbus::verif::Sim for Shared {
 
     fn schedule(&self, id: u64, runnable: Runnable) {
         let mut st = self.st.lock().unwrap();
+        let now = st.steps;
+        st.since.entry(id).or_insert(now);
         st.runnable.insert(id, runnable);
     }
 
